@@ -184,6 +184,8 @@ class Client:
                     raise Error("Connection closed by server")
                 if m.group(1) == b"NO":
                     self.__parse_error(m.group(2))
+                elif m.group(2) is not None:
+                    self.__skip_literal(m.group(2))
                 raise Response(m.group(1), m.group(2))
         return ret
 
@@ -320,6 +322,20 @@ class Client:
                 parts[1].strip(b'"').decode("utf-8") if len(parts) > 1 else None
             )
         return True
+
+    def __skip_literal(self, text: bytes):
+        """Read the text of an OK response when it is sent as a literal.
+
+        Otherwise, its content would be taken for the next response.
+
+        :param text: what follows OK on the response line
+        """
+        m = self.__respcode_arg_expr.match(text)
+        if m is not None:
+            text = text[m.end() :]
+        m = self.__size_expr.fullmatch(text.strip())
+        if m is not None:
+            self.__read_block(int(m.group(1)) + 2)
 
     def __parse_error(self, text: bytes):
         """Parse an error received from the server.
